@@ -110,7 +110,7 @@ func (g *RunGen) stmt(ind int) string {
 	g.depth--
 	defer func() { g.depth++ }()
 	tabs := strings.Repeat("\t", ind)
-	switch k := r.Intn(24); {
+	switch k := r.Intn(27); {
 	case k < 8:
 		return g.simple()
 	case k < 10:
@@ -150,6 +150,19 @@ func (g *RunGen) stmt(ind int) string {
 		return "((n++)); echo $n; ((" + g.arith(1) + ")) || echo zero"
 	case k == 23 && g.Bash:
 		return "echo $'a\\tb' \"${a^^}\" \"${b:1:2}\" \"${x/o/0}\""
+	case k == 24:
+		// positional parameters with blanks, empty strings and glob characters: a list of exactly $@ / "$@" / $* / nothing
+		// (seeded change C03-2 rewrote `for i in $@` to `for i`, which only differs for such parameters)
+		list := r.Pick([]string{" in $@", " in \"$@\"", " in ${@}", " in $*", " in \"$*\"", "", " in", " in \"${@}\"", " in $@ $@", " in x$@"})
+		sep := r.Pick([]string{"; do\n", "\ndo\n"})
+		if list == "" && r.Bool() {
+			sep = " do\n"
+		}
+		return "set -- " + g.val() + " '' 'p q' " + r.Pick([]string{"'*'", "r", "' s '"}) + "\n" + tabs + "for p" + list + sep + tabs + "\techo \"p=<$p>\"\n" + tabs + "done"
+	case k == 25:
+		return "set -- " + g.val() + " 'u v' ''; echo \"$#:$1:$*\"; shift; echo \"$#\" \"$@\"; printf '<%s>' $@ \"$@\"; echo"
+	case k == 26 && g.fn > 0:
+		return fmt.Sprintf("f%d 'a  b' '' %s", 1+r.Intn(g.fn), g.val())
 	default:
 		return g.simple()
 	}
@@ -162,7 +175,11 @@ func (g *RunGen) Program() string {
 	nf := g.R.Intn(3)
 	for i := 1; i <= nf; i++ {
 		g.depth = 2
-		sb.WriteString(fmt.Sprintf("f%d() {\n\techo \"f%d:$1\"\n%s\treturn %d\n}\n", i, i, g.body(1), g.R.Intn(3)))
+		argloop := ""
+		if g.R.Bool() {
+			argloop = "\tfor q" + g.R.Pick([]string{"", " in $@", " in \"$@\"", " in $*"}) + "; do echo \"q=<$q>\"; done\n"
+		}
+		sb.WriteString(fmt.Sprintf("f%d() {\n\techo \"f%d:$1:$#\"\n%s%s\treturn %d\n}\n", i, i, argloop, g.body(1), g.R.Intn(3)))
 		g.fn = i
 	}
 	for i, n := 0, 2+g.R.Intn(5); i < n; i++ {
